@@ -191,6 +191,17 @@ def one_violation(prop: str, problems: list[tuple[str, str, str]], h: Any = None
             problems = problems + [("diagnosis", f"the jump from {x['source']} back to {x['target']} re-armed both but left the completed "
                                                  f"stage(s) {x['not_rearmed']} between them untouched (fan-in with an upstream outside "
                                                  f"the re-armed set): nothing restarts {x['source']}", "")]
+    stalejump: list[str] = []
+    if h is not None:
+        from sim.oracles import jump_stale_rearm
+
+        sj = jump_stale_rearm(h)
+        if sj:
+            stalejump = [f"{x['stage']}:{x['child']}" for x in sj]
+            sig += "<-jump-applied-on-stale-plan"
+            problems = problems + [("diagnosis", f"a jump re-armed stage {sj[0]['stage']} but not its synthetic child {sj[0]['child']}, which another "
+                                                 f"worker had created after the jump handler took its message: the child stays complete and the "
+                                                 f"re-armed stage waits for it forever", "")]
     skipovertaken: list[str] = []
     if h is not None:
         from sim.oracles import skip_overtaken
@@ -212,4 +223,4 @@ def one_violation(prop: str, problems: list[tuple[str, str, str]], h: Any = None
             problems = problems + [("diagnosis", f"a jump re-armed the after / on-failure stage(s) {rc} of a stage that later failed again: "
                                                  f"CompleteStage takes the NOT_STARTED leftovers for children in flight and waits for them", "")]
     msg = " || ".join(f"{c}: {m}" for c, m, _ in problems)
-    return [V(prop, cls, msg, rearmedchild=rearmedchild, skipovertaken=skipovertaken, sig=sig, classes=[c for c, _, _ in problems], stale=stale, planlost=planlost, jumppath=jumppath, sweepwindow=sweepwindow, tails=tails)]
+    return [V(prop, cls, msg, rearmedchild=rearmedchild, skipovertaken=skipovertaken, stalejump=stalejump, sig=sig, classes=[c for c, _, _ in problems], stale=stale, planlost=planlost, jumppath=jumppath, sweepwindow=sweepwindow, tails=tails)]
